@@ -1748,6 +1748,11 @@ class Folder:
             x = Arr(list(x))
         if isinstance(x, Arr) and len(x.shape) == 1 and isinstance(reps, int) and not isinstance(reps, bool) and reps >= 0 and not (set(kw) - {"reps"}):
             return Arr(list(x.data) * reps)
+        # 2-d array tiled (r, c) times: rows repeated r times as a block, each row repeated c times side by side (numpy's definition)
+        if isinstance(x, Arr) and len(x.shape) == 2 and isinstance(reps, (tuple, list)) and len(reps) == 2 and all(isinstance(r_, int) and not isinstance(r_, bool) and r_ >= 0 for r_ in reps) \
+                and not self.symbolic and not (set(kw) - {"reps"}):
+            rows = [list(row) * reps[1] for row in x.data]
+            return Arr([list(r_) for _ in range(reps[0]) for r_ in rows])
         raise Refuse("np.tile form")
 
     def c_np_repeat(self, a, kw):
@@ -1756,6 +1761,8 @@ class Folder:
             x = Arr(list(x))
         if isinstance(x, Arr) and len(x.shape) == 1 and isinstance(reps, int) and not isinstance(reps, bool) and reps >= 0 and not (set(kw) - {"repeats"}):
             return Arr([v for v in x.data for _ in range(reps)])
+        if isinstance(x, Arr) and len(x.shape) == 2 and isinstance(reps, int) and not isinstance(reps, bool) and reps >= 0 and kw.get("axis") == 0 and not self.symbolic:
+            return Arr([list(row) for row in x.data for _ in range(reps)])
         raise Refuse("np.repeat form")
 
     def c_np_sort(self, a, kw):
